@@ -250,7 +250,7 @@ func checkC07(c *Ctx, r *Report) {
 				rcs = []int64{0, 1, 2, 3, 4, 5, 6, 0x80, 0xff}
 			}
 			for _, rc := range rcs {
-				for _, tx := range []string{"*gateway.connectTransaction", "none"} {
+				for _, tx := range []string{c.gwConnectTx(), "none"} {
 					cells := map[string]aval{"state": kint(st), "type:mq": kstr(trig), "type:tx": kstr(tx)}
 					if rc >= 0 {
 						cells["f:mqtt.ConnackPacket.ReturnCode"] = kint(rc)
@@ -269,7 +269,7 @@ func checkC07(c *Ctx, r *Report) {
 	for _, run := range mqRuns {
 		key := fmt.Sprintf("%s/%s/%s", stateNames[run.State], run.Trigger, cellsKey(run.Cells))
 		isAcceptedConnack := run.Trigger == "*mqtt.ConnackPacket" && run.Cells["f:mqtt.ConnackPacket.ReturnCode"].i == 0 &&
-			run.Cells["type:tx"].s == "*gateway.connectTransaction"
+			run.Cells["type:tx"].s == c.gwConnectTx()
 		for _, o := range run.Outs {
 			nd := writesNonDisconnected(o)
 			acc := acceptedConnackEvent(o)
